@@ -38,6 +38,8 @@ var addrExec = map[string]h.ExecFn{
 	"addr.tlb":       exAddrTlb,
 	"addr.from_tlb":  exAddrFromTlb,
 	"addr.anycast":   exAddrAnycast,
+	"addr.tlb_parse": exAddrTlbParse,
+	"addr.tlb_bits":  exAddrTlbBits,
 	"addr.subst":     exAddrSubst,
 	"adnl.to32":      exAdnlTo32,
 	"adnl.parse":     exAdnlParse,
@@ -172,6 +174,67 @@ func exAddrFromTlb(a []string) string {
 		return "err"
 	}
 	return outAcctPtr(ton.AccountIDFromTlb(m))
+}
+
+func bitStringBits(b *boc.BitString) string {
+	b.ResetCounter()
+	var sb strings.Builder
+	for b.BitsAvailableForRead() > 0 {
+		x, err := b.ReadBit()
+		if err != nil {
+			panic(err)
+		}
+		if x {
+			sb.WriteByte('1')
+		} else {
+			sb.WriteByte('0')
+		}
+	}
+	if sb.Len() == 0 {
+		return "-"
+	}
+	return sb.String()
+}
+
+func anycastStr(m tlb.Maybe[tlb.Anycast]) string {
+	if !m.Exists {
+		return "-"
+	}
+	return fmt.Sprintf("%d/%d", m.Value.Depth, m.Value.RewritePfx)
+}
+
+// exAddrTlbParse: MsgAddress.UnmarshalTLB on the given cell bits, all four constructors, canonical text
+func exAddrTlbParse(a []string) string {
+	c := cellFromBits(a[0])
+	var m tlb.MsgAddress
+	if err := tlb.Unmarshal(c, &m); err != nil {
+		return "err"
+	}
+	switch m.SumType {
+	case "AddrNone":
+		return "ok none"
+	case "AddrExtern":
+		return "ok extern " + bitStringBits(m.AddrExtern)
+	case "AddrStd":
+		return fmt.Sprintf("ok std %s %d %s", anycastStr(m.AddrStd.Anycast), m.AddrStd.WorkchainId, hex.EncodeToString(m.AddrStd.Address[:]))
+	case "AddrVar":
+		return fmt.Sprintf("ok var %s %d %d %s", anycastStr(m.AddrVar.Anycast), m.AddrVar.AddrLen, m.AddrVar.WorkchainId, bitStringBits(&m.AddrVar.Address))
+	}
+	return "FAIL sumtype " + string(m.SumType)
+}
+
+// exAddrTlbBits: unmarshal, marshal again: the bits MsgAddress.MarshalTLB writes for the parsed value
+func exAddrTlbBits(a []string) string {
+	c := cellFromBits(a[0])
+	var m tlb.MsgAddress
+	if err := tlb.Unmarshal(c, &m); err != nil {
+		return "err"
+	}
+	out := boc.NewCell()
+	if err := tlb.Marshal(out, m); err != nil {
+		return "err"
+	}
+	return "ok " + cellBits(out)
 }
 
 func anycastAddr(w, a, d, p string) tlb.MsgAddress {
@@ -714,7 +777,7 @@ func genC17Addr(g *h.G) {
 	}
 
 	// all 48 x 63 single-character substitutions (interleaved with the other cases: they are the expensive lines)
-	ns := g.Scale(200, 2000)
+	ns := g.Scale(300, 8000)
 	substDone := 0
 	emitSubst := func() {
 		if substDone >= ns {
@@ -813,9 +876,56 @@ func genC17Addr(g *h.G) {
 				}
 				g.Count("tlb_truncated")
 			}
-			if !strings.HasPrefix(bits, "01") && !strings.HasPrefix(bits, "11") {
-				g.Emit("addr.from_tlb", bits)
+			g.Emit("addr.from_tlb", bits)
+			g.Emit("addr.tlb_parse", bits)
+			g.Emit("addr.tlb_bits", bits)
+		}
+		if g.Rng.Intn(3) == 0 { // addr_extern / addr_var / arbitrary tag bits
+			var bits string
+			rb := func(n int) string {
+				var sb strings.Builder
+				for k := 0; k < n; k++ {
+					sb.WriteByte("01"[g.Rng.Intn(2)])
+				}
+				return sb.String()
 			}
+			ac := "0"
+			if g.Rng.Intn(3) == 0 {
+				d := 1 + g.Rng.Intn(31)
+				if g.Rng.Intn(6) == 0 {
+					d = 0
+				}
+				ac = "1" + fmt.Sprintf("%05b", d) + rb(d)
+			}
+			ln := g.Rng.Intn(512)
+			if g.Rng.Intn(3) == 0 {
+				ln = g.Pick(0, 1, 7, 8, 255, 256, 511)
+			}
+			switch g.Rng.Intn(3) {
+			case 0:
+				bits = "01" + fmt.Sprintf("%09b", ln) + rb(ln)
+				g.Count("tlb_extern")
+			case 1:
+				bits = "11" + ac + fmt.Sprintf("%09b", ln) + rb(32) + rb(ln)
+				g.Count("tlb_var")
+			default:
+				bits = rb(g.Rng.Intn(400))
+				g.Count("tlb_random_bits")
+			}
+			if g.Rng.Intn(5) == 0 {
+				bits = bits[:g.Rng.Intn(len(bits)+1)]
+			} else if len(bits) < 1000 && g.Rng.Intn(3) == 0 {
+				bits += rb(g.Rng.Intn(20))
+			}
+			if len(bits) > 1023 {
+				bits = bits[:1023]
+			}
+			if bits == "" {
+				bits = "-"
+			}
+			g.Emit("addr.from_tlb", bits)
+			g.Emit("addr.tlb_parse", bits)
+			g.Emit("addr.tlb_bits", bits)
 		}
 		if g.Rng.Intn(4) == 0 {
 			d, p := uint32(1+g.Rng.Intn(30)), g.Rng.Uint32()
